@@ -492,6 +492,63 @@ func checkKeeper(in c18Input) (msg string) {
 			return fmt.Sprintf("timestamps of BEACON %d were written with ids %v; forward iteration lists %v, reverse iteration %v, the genesis export %v", b[0], keys, fw, bw, ex)
 		}
 	}
+	// --- the modules' list queries report every entity exactly as a point read does (no value of one entity leaks
+	// into what is listed for another), in ascending identifier order
+	if a[0] != b[0] {
+		// one registration with every field set, one with the optional fields and counters left at their zero values
+		app.WrkchainKeeper.SetWrkChain(ctx, wrkchaintypes.WrkChain{WrkchainId: a[0], Moniker: "A2", Name: "name-a", Genesis: "gen-a", Type: "type-a", Owner: s1.String(), Lastblock: 77, NumBlocks: 3, LowestHeight: 5, RegTime: 9})
+		app.BeaconKeeper.SetBeacon(ctx, beacontypes.Beacon{BeaconId: a[0], Moniker: "A2", Name: "name-a", Owner: s1.String(), LastTimestampId: 77, NumInState: 3, FirstIdInState: 5, RegTime: 9})
+		app.WrkchainKeeper.SetWrkChain(ctx, wrkchaintypes.WrkChain{WrkchainId: b[0], Moniker: "B", Owner: r2.String()})
+		app.BeaconKeeper.SetBeacon(ctx, beacontypes.Beacon{BeaconId: b[0], Moniker: "B", Owner: r2.String()})
+		wl, err := app.WrkchainKeeper.WrkChainsFiltered(sdk.WrapSDKContext(ctx), &wrkchaintypes.QueryWrkChainsFilteredRequest{Pagination: &query.PageRequest{Limit: 10}})
+		if err != nil {
+			return "WrkChainsFiltered failed: " + err.Error()
+		}
+		if len(wl.Wrkchains) != 2 {
+			return fmt.Sprintf("WrkChainsFiltered lists %d WRKChains, 2 were written", len(wl.Wrkchains))
+		}
+		for i, x := range wl.Wrkchains {
+			pt, _ := app.WrkchainKeeper.GetWrkChain(ctx, x.WrkchainId)
+			if x.String() != pt.String() {
+				return fmt.Sprintf("WrkChainsFiltered lists WRKChain %d as %v, the point read gives %v", x.WrkchainId, x, pt)
+			}
+			if i > 0 && wl.Wrkchains[i-1].WrkchainId >= x.WrkchainId {
+				return "WrkChainsFiltered is not in ascending identifier order"
+			}
+		}
+		bl, err := app.BeaconKeeper.BeaconsFiltered(sdk.WrapSDKContext(ctx), &beacontypes.QueryBeaconsFilteredRequest{Pagination: &query.PageRequest{Limit: 10}})
+		if err != nil {
+			return "BeaconsFiltered failed: " + err.Error()
+		}
+		if len(bl.Beacons) != 2 {
+			return fmt.Sprintf("BeaconsFiltered lists %d BEACONs, 2 were written", len(bl.Beacons))
+		}
+		for i, x := range bl.Beacons {
+			pt, _ := app.BeaconKeeper.GetBeacon(ctx, x.BeaconId)
+			if x.String() != pt.String() {
+				return fmt.Sprintf("BeaconsFiltered lists BEACON %d as %v, the point read gives %v", x.BeaconId, x, pt)
+			}
+			if i > 0 && bl.Beacons[i-1].BeaconId >= x.BeaconId {
+				return "BeaconsFiltered is not in ascending identifier order"
+			}
+		}
+		pl, err := app.EnterpriseKeeper.EnterpriseUndPurchaseOrders(sdk.WrapSDKContext(ctx), &enttypes.QueryEnterpriseUndPurchaseOrdersRequest{Pagination: &query.PageRequest{Limit: 10}})
+		if err != nil {
+			return "EnterpriseUndPurchaseOrders failed: " + err.Error()
+		}
+		if len(pl.PurchaseOrders) != 2 {
+			return fmt.Sprintf("EnterpriseUndPurchaseOrders lists %d orders, 2 were written", len(pl.PurchaseOrders))
+		}
+		for i, x := range pl.PurchaseOrders {
+			pt, _ := app.EnterpriseKeeper.GetPurchaseOrder(ctx, x.Id)
+			if x.String() != pt.String() {
+				return fmt.Sprintf("EnterpriseUndPurchaseOrders lists order %d as %v, the point read gives %v", x.Id, x, pt)
+			}
+			if i > 0 && pl.PurchaseOrders[i-1].Id >= x.Id {
+				return "EnterpriseUndPurchaseOrders is not in ascending identifier order"
+			}
+		}
+	}
 	// --- enterprise: every other listing (queues, locked, spent, whitelist) is complete and ascending
 	if a[0] != b[0] && !bytes.Equal(r1, r2) {
 		wantQ := func(name string, got []uint64, want ...uint64) string {
